@@ -116,6 +116,16 @@ def run(ctx):
                         add(hh, '/*', pth, ('adv', None, None))
                     add('serve_dir', '/files/*', '/files' + pth, ('adv', None, None))
                     add('directory', '/files/*', '/files' + pth, ('adv', None, None))
+        # absolute-path battery: the real absolute path of the canaries behind 1..4 slashes (a joined absolute path would
+        # replace the directory); @BASE@ is expanded by the harness
+        for nsl in (1, 2, 3, 4):
+            for target in ('secret.txt', 'wwwx/other.txt', 'wwwx/'):
+                pth = '/' * nsl + '@BASE@/' + target
+                for hh in handlers:
+                    add(hh, '/*', pth, ('adv', None, None))
+                add('serve_dir', '/files/*', '/files' + pth, ('adv', None, None))
+                add('directory', '/files/*', '/files' + pth, ('adv', None, None))
+                add('serve_dir', '/*', pth.replace('/', '%2f', 1), ('adv', None, None))
         # adversarial paths
         names = list(files.keys()) + list(dirs) + ['secret.txt', 'wwwx', 'other.txt', 'www']
         for _ in range(per_tree):
